@@ -111,6 +111,7 @@ class Env:
         self.past: dict[tuple, str] = {}
         self.back: dict[tuple, str] = {}       # live units that were connected before with no required roles
         self.runs: dict[tuple, str] = {}
+        self.runs2: dict[tuple, str] = {}      # first run of an engine whose later run requires no roles
         self.setup_exceptions = 0
         self.lsp_reference: dict = {}
         self._populate()
@@ -128,13 +129,16 @@ class Env:
         finally:
             loop.shutdown()
 
-    async def _unit(self, prefix, R, stop_and_disconnect, earlier_session_without_roles=False):
+    async def _unit(self, prefix, R, stop_and_disconnect, earlier_session_without_roles=False, computer=None, named_after=None):
+        """computer / named_after: the unit is a later session of the engine that was created as _unit(computer, named_after, ..):
+        same computer and uod name (same engine id), own marker, own required roles R"""
         import logging as _l
         from unittest.mock import AsyncMock, Mock
         import openpectus.protocol.engine_messages as EM
         import openpectus.protocol.models as PM
         from openpectus import __version__
         d = self.disp
+        roles, R = R, (named_after if named_after is not None else R)          # R names the unit, `roles` is what its UOD requires
         mk = marker_of(prefix, R)
         if earlier_session_without_roles:
             # the same engine was connected before with a UOD that required no roles: its RecentEngine row says []
@@ -152,7 +156,7 @@ class Env:
             del d._engine_id_channel_map[eid0]
             await d._disconnect_handler(eid0)
         reply = await d._register_handler(EM.RegisterEngineMsg(
-            computer_name=f"pc{prefix}{key_of(R)}", uod_name="uod", uod_author_name=f"author {mk}", uod_author_email="a@b",
+            computer_name=f"pc{computer or prefix}{key_of(R)}", uod_name="uod", uod_author_name=f"author {mk}", uod_author_email="a@b",
             uod_filename="uod.py", location=f"loc {mk}", engine_version=__version__))
         if not reply.success:
             raise HarnessError("C32 setup: engine registration refused")
@@ -180,7 +184,7 @@ class Env:
                 sub_plots=[PM.SubPlot(axes=[PM.PlotAxis(label=f"axis {mk}", process_value_names=[tag], y_max=10, y_min=0,
                                                         color="#000000")], ratio=1)],
                 x_axis_process_value_names=["Run Time"]),
-            hardware_str=f"hw {mk}", required_roles=set(R), data_log_interval_seconds=1.0))
+            hardware_str=f"hw {mk}", required_roles=set(roles), data_log_interval_seconds=1.0))
         run_id = f"run-{prefix}{key_of(R)}"
 
         def tags(t, run):
@@ -214,6 +218,12 @@ class Env:
             self.live[R], _ = await self._unit("l", R, False)
             self.past[R], self.runs[R] = await self._unit("p", R, True)
             self.back[R], _ = await self._unit("b", R, False, earlier_session_without_roles=True)
+            # an engine whose UOD required R during its first run and requires nothing during a later run: two recent runs of
+            # one engine with different required roles
+            eid1, self.runs2[R] = await self._unit("t", R, True)
+            eid2, _ = await self._unit("u", (), True, computer="t", named_after=R)
+            if eid1 != eid2:
+                raise HarnessError("C32 setup: the second session did not get the engine id of the first")
 
     # -- requests -------------------------------------------------------------------------------------------
     def current_method_version(self, unit_id) -> int:
@@ -375,7 +385,7 @@ def explore(env: Env, only_route=None):
         if spec["kind"] in ("unit", "run"):
             stats["unit_routes" if spec["kind"] == "unit" else "run_routes"] += 1
             targets = ([("live_unit", env.live, "l"), ("recent_engine", env.past, "p")] if spec["kind"] == "unit"
-                       else [("recent_run", env.runs, "p")])
+                       else [("recent_run", env.runs, "p"), ("recent_run", env.runs2, "t")])
             for tkind, ids, prefix in targets:
                 found: dict[str, list] = {}
                 n_forbidden = 0
@@ -418,7 +428,7 @@ def explore(env: Env, only_route=None):
                                                ("live_unit", env.back, "b", True)],
                       "units": [("live_unit", env.live, "l", True), ("recent_engine", env.past, "p", False),
                                 ("live_unit", env.back, "b", True)],
-                      "runs": [("recent_run", env.runs, "p", True)]}[spec["of"]]
+                      "runs": [("recent_run", env.runs, "p", True), ("recent_run", env.runs2, "t", True)]}[spec["of"]]
             for U in env.role_sets:
                 res = env.request(dict(build=lambda e, i, _p=route[1]: dict(method="GET", url=_p)), "", U)
                 stats["requests"] += 1
